@@ -362,12 +362,47 @@ def run(rep, tier, seed):
     for fc in lf.replay_known(rep, "C03", known_oracle):
         cases.insert(0, fc)
     lf.add_histories(rng, cases)
-    lf.run_cases(cases, model=True, extra_requests=lambda c: ["cover 0 0 1"], parse_model=True)
+    lf.run_cases(cases, model=True, extra_requests=lambda c: ["cover 0 0 1", "glr cert"], parse_model=True)
     cases += directed(rep, cases, rng)
     fcases = forest_cases(cases)
     lf.run_cases(fcases, model=False)
     glr_model_answers(fcases)
-    check(rep, cases, fcases, proofs_ok)
+    ecases = engine_only_cases(rng, tier)
+    lf.run_cases(ecases, model=True, extra_requests=lambda c: ["glr cert"], parse_model=False)
+    glr_model_answers(ecases)
+    check(rep, cases, fcases, proofs_ok, ecases)
+
+
+def engine_only_cases(rng, tier):
+    """families that only feed the engine correspondence (Tie A) and the certificate (Tie B), not the derivation oracle:
+    whitespace between tokens (default skipping), Layout rules (whitespace / line comments / nested comments: the nested LR
+    layout parser inside find_lookaheads), partial parsing on and off, all three table types"""
+    n = 6 if tier == "quick" else 40
+    out = []
+    for layout, ws in ((None, ("none", "mixed")), ("ws", ("mixed",)), ("comments", ("mixed", "layout")),
+                       ("nested", ("mixed", "layout"))):
+        kw = dict(unicode=(layout is None), layout=layout, p_empty=0.25)
+        tts = ("LALR_RN",) if layout in (None, "ws") else ("LALR_RN", "LALR_PAGER")
+        cs = lf.bnf_cases(rng, n, tts=tts, algo="GLR", max_len=3, n_sent=8, n_mut=3, ws=ws, gen_kw=kw,
+                          partial=("0", "1"))
+        for c in cs:
+            c.max_trees = 8
+            c.tag = "engine-only:" + str(layout)
+        out += cs
+    return out
+
+
+def cert_answer(c):
+    """answer of `glr cert` (Cert.glr of Model/GlrCert.lean: hypothesis of C03_engine_sound / C03_engine_no_panic) or None"""
+    for x in getattr(c, "extra", None) or []:
+        if x.startswith("cert "):
+            return x
+    return None
+
+
+def cert_failures(cases):
+    return [c for c in cases if c.dump is not None and cert_answer(c) is not None and
+            (" glr=1" not in " " + cert_answer(c) or "layoutsafe=FAIL" in cert_answer(c))]
 
 
 def cover_failures(cases):
@@ -398,7 +433,7 @@ def directed(rep, cases, rng):
     return out
 
 
-def check(rep, cases, fcases, proofs_ok):
+def check(rep, cases, fcases, proofs_ok, ecases=()):
     rep.cov["rule"] = ("literature grammars (ambiguous, palindromes, hidden left recursion, right-nullable) + random grammars in scope "
                        "(acyclic, no ambiguous empty derivation; ambiguous / non-LR / nullable) with the RN table; inputs: all strings up "
                        "to the length bound + sentences; per input: solutions() vs an independent derivation counter, every enumerated "
@@ -409,11 +444,16 @@ def check(rep, cases, fcases, proofs_ok):
                        "through the Lean model of the GSS engine (Model/Glr.lean: frontiers, pending reductions in the real order, "
                        "right-nulled reductions, the fold, shifter, accept/error) and the answer lines are compared textually: "
                        "Ok/Err, solutions(), every printed tree with all spans, error position and expected set, and for the forest "
-                       "jobs the whole SPPF dump (sharing structure, node numbering of the hook); distinct = (grammar, input)")
+                       "jobs the whole SPPF dump (sharing structure, node numbering of the hook); engine-only families (no "
+                       "derivation oracle): whitespace between tokens, Layout rules (whitespace / comments / nested comments), "
+                       "partial parsing, LALR_RN and LALR_PAGER tables; EVERY real table of the run must pass the Lean "
+                       "certificate Cert.glr (hypothesis of the engine theorems); distinct = (grammar, input)")
     failures, _ = lf.evaluate(rep, cases, oracle, proofs_ok, PROP_MODULE, compare_model=False, known_class=known_class)
     breaks = forest_correspondence(rep, fcases)
     rep.counters["forest_corr_breaks"] = len(breaks)
-    ebreaks = engine_correspondence(rep, cases) + engine_correspondence(rep, fcases, name="glr-engine-forest")
+    ecases = list(ecases)
+    ebreaks = (engine_correspondence(rep, cases) + engine_correspondence(rep, fcases, name="glr-engine-forest") +
+               engine_correspondence(rep, ecases, name="glr-engine-ws-layout-partial"))
     rep.counters["engine_corr_breaks"] = len(ebreaks)
     amb = sum(1 for c in cases for r in c.results if r.startswith("ok ") and int(r.split(" ")[1]) > 1)
     rep.counters["ambiguous_inputs"] = amb
@@ -428,6 +468,24 @@ def check(rep, cases, fcases, proofs_ok):
                            "(rn): " + c.extra[0] + " -- GLR completeness is no longer shown for it; the directed search "
                            "(all strings to length 5-8) found no input that loses a tree", kind="certificate",
                            n_failures=len(cf)), no_input=True)
+    # Tie B for the engine theorems: Cert.glr (nullable ranking, structural certificate with right-nulled reduce entries,
+    # accessing symbols, Cert.total) evaluated by the driver on EVERY real table of this run
+    certf = cert_failures(list(cases) + ecases)
+    for c in list(cases) + ecases:
+        a = cert_answer(c)
+        if c.dump is None or a is None:
+            continue
+        rep.count("glr_cert_pass" if " glr=1" in a else "glr_cert_FAIL")
+        ls = a.rsplit("layoutsafe=", 1)[1] if "layoutsafe=" in a else "?"
+        rep.count("layoutsafe:" + {"none": "no Layout rule (void)", "cert": "Cert.glrLayout holds",
+                                   "FAIL": "Cert.glrLayout FAILS"}.get(ls, ls))
+    rep.counters["glr_certificate_failures"] = len(certf)
+    if certf and not failures:
+        c = min(certf, key=lambda c: len(c.text))
+        rep.violation(dict(c.describe(), why="the table of this grammar fails the Lean certificate Cert.glr / Cert.glrLayout (hypotheses "
+                           "of C03_engine_sound / C03_engine_no_panic_certified): " + cert_answer(c) + " -- soundness and panic freedom "
+                           "of the GLR engine are no longer shown for it; no failing input was found", kind="certificate",
+                           n_failures=len(certf)), no_input=True)
     if breaks and not failures and not cf:
         c, k, ans = breaks[0]
         rep.violation(dict(c.describe(k), why="correspondence corr:forest broken (Lean Forest.getTree/solutions != real "
@@ -449,7 +507,7 @@ def replay(rep, path):
     g = lf.parse_bnf(p["grammar"])
     inp = p.get("input", "")
     c = lf.Case(p["grammar"], p["settings"].split(" "), [("GLR", "0", inp, {"toks": lf.toks_of_input(g, inp), "job": "std"})], gram=g)
-    lf.run_cases([c], model=True, extra_requests=lambda c: ["cover 0 0 1"], parse_model=True)
+    lf.run_cases([c], model=True, extra_requests=lambda c: ["cover 0 0 1", "glr cert"], parse_model=True)
     f = forest_cases([c])
     lf.run_cases(f, model=False)
     glr_model_answers(f)
